@@ -166,9 +166,9 @@ class Events(Part):
                 if a > 0 and ctx.branch(bv_is(raw[a - 1], CR)):
                     nxt = rep[0] if rep else (raw[bb] if bb < len(raw) else None)
                     if nxt is not None and ctx.branch(bv_is(nxt, LF)):
-                        seam = a
+                        seam = a; ctx.notes.append('seam:start')
                 if rep and bb < len(raw) and ctx.branch(bv_is(rep[-1], CR)) and ctx.branch(bv_is(raw[bb], CR)):
-                    seam = bb
+                    seam = bb; ctx.notes.append('seam:end')
                 raw = new_raw
             else:
                 arg = NONE(); seam = None
@@ -258,8 +258,10 @@ class Events(Part):
     def attribute(self, chk, v, known):
         notes = v.get('notes', [])
         for k in known:
-            if k['id'] == 'C10-cr-seam' and 'region:cr-seam' in notes and v['kind'] == 'length' \
-                    and any(n in ('lendiff:1', 'lendiff:-1') for n in notes):
+            if k['id'] != 'C10-cr-seam' or 'region:cr-seam' not in notes: continue
+            if v['kind'] == 'length' and any(n in ('lendiff:1', 'lendiff:-1') for n in notes): return k['id']
+            # both seams of one edit touch a CR: the two off-by-one line breaks may cancel in length and show as content, or add up
+            if 'seam:start' in notes and 'seam:end' in notes and (v['kind'] == 'content' or any(n in ('lendiff:2', 'lendiff:-2') for n in notes)):
                 return k['id']
         return None
 
